@@ -67,25 +67,38 @@ def main():
         rc, out = sh(["/venv/bin/python", "-m", "pytest", "-q", "-p", "no:cacheprovider",
                       "--continue-on-collection-errors", "--timeout=900"], cwd=wt, env=env)
         meta["suite_with_change"] = (out.strip().splitlines() or [""])[-1]
+        if "--worktree" in sys.argv:
+            # run our check against the patched scratch worktree (VERIF_REPO) instead of
+            # touching /repo - used while a background soak reads /repo
+            t0 = time.time()
+            crc, cout = sh([os.path.join(VERIF, "check"), pid, "--tier", tier, "--no-evidence"], cwd=VERIF,
+                           env=dict(os.environ, VERIF_REPO=wt))
+            meta["_wt_check"] = (crc, cout, round(time.time() - t0, 1))
     finally:
         sh(["git", "-C", "/repo", "worktree", "remove", "--force", wt])
         shutil.rmtree(wt, ignore_errors=True)
     confirmed = rc0 == 0 and rc1 != 0 and "110 passed" in meta["suite_with_change"]
     meta["confirmed"] = confirmed
     # ---- our check against /repo with the change applied
-    rc, out = sh(["git", "-C", "/repo", "status", "--porcelain"])
-    if out.strip():
-        print("refusing: /repo working tree is not clean:\n" + out)
-        return 2
-    t0 = time.time()
-    rc, out = sh(["git", "-C", "/repo", "apply", patch])
-    assert rc == 0, out
-    try:
-        crc, cout = sh([os.path.join(VERIF, "check"), pid, "--tier", tier, "--no-evidence"], cwd=VERIF)
-    finally:
-        sh(["git", "-C", "/repo", "checkout", "--", "."])
-    rc, out = sh(["git", "-C", "/repo", "status", "--porcelain"])
-    assert not out.strip(), "repo not clean after undo: " + out
+    if "_wt_check" in meta:
+        crc, cout, wall = meta.pop("_wt_check")
+        t0 = time.time() - wall
+        how = "VERIF_REPO=<scratch worktree with patch.diff applied> ./check %s --tier %s --no-evidence" % (pid, tier)
+    else:
+        rc, out = sh(["git", "-C", "/repo", "status", "--porcelain"])
+        if out.strip():
+            print("refusing: /repo working tree is not clean:\n" + out)
+            return 2
+        t0 = time.time()
+        rc, out = sh(["git", "-C", "/repo", "apply", patch])
+        assert rc == 0, out
+        try:
+            crc, cout = sh([os.path.join(VERIF, "check"), pid, "--tier", tier, "--no-evidence"], cwd=VERIF)
+        finally:
+            sh(["git", "-C", "/repo", "checkout", "--", "."])
+        rc, out = sh(["git", "-C", "/repo", "status", "--porcelain"])
+        assert not out.strip(), "repo not clean after undo: " + out
+        how = "git -C /repo apply patch.diff; ./check %s --tier %s --no-evidence; git -C /repo checkout -- ." % (pid, tier)
     sigs = [l.split("violation signature ", 1)[1] for l in cout.splitlines() if l.startswith("violation signature ")]
     details = [l.strip() for l in cout.splitlines() if l.strip().startswith("detail:")]
     meta["check_exit"] = crc
@@ -95,7 +108,7 @@ def main():
     meta["check_wall_s"] = round(time.time() - t0, 1)
     meta["check_summary"] = (cout.strip().splitlines() or [""])[-1][:300]
     meta["ran"] = ["scratch worktree: demo without change, git apply, demo with change, repository suite",
-                   "git -C /repo apply patch.diff; ./check %s --tier %s --no-evidence; git -C /repo checkout -- ." % (pid, tier)]
+                   how]
     print(json.dumps(meta, indent=1))
     name = x.lower()
     if "--as" in sys.argv:
